@@ -387,6 +387,45 @@ func checkC16(c *Ctx) {
 	if n == 0 {
 		c.Fail("C16-R4", "start:go(recorder)", start.Pos(), "unresolved", "start does not run the recorder in a goroutine")
 	}
+	// ---- R5 the event logger exists only when event logging is configured: every use of it is
+	// dominated by a test that LogEvents is set (an unguarded report - a progress line, say - is a
+	// nil dereference that stops pass-through and recording when logging is off)
+	nUses, badUses := 0, 0
+	for _, g := range P.FuncsIn("apps/rtcmlogger") {
+		eachInstr(g, func(ins ssa.Instruction) {
+			call, ok := ins.(*ssa.Call)
+			if !ok || len(call.Call.Args) == 0 {
+				return
+			}
+			recv := call.Call.Args[0]
+			if call.Call.IsInvoke() {
+				recv = call.Call.Value
+			}
+			gl := loadOfGlobal(recv)
+			if gl == nil || gl.Name() != "eventLogger" {
+				return
+			}
+			nUses++
+			guarded := false
+			for _, f := range dominatingFacts(call.Block()) {
+				cond, val := f.Cond, f.Val
+				if u, isNot := cond.(*ssa.UnOp); isNot && u.Op == token.NOT {
+					cond, val = u.X, !val
+				}
+				if fv, _ := loadedField(cond); fv != nil && fv.Name() == "LogEvents" && val {
+					guarded = true
+				}
+			}
+			if !guarded {
+				badUses++
+				c.Fail("C16-R5", "event-logger-guarded("+P.FnKey(g)+")", call.Pos(), "refuted", "the event logger is used without a LogEvents test: it is nil when event logging is off, so this call stops the copy loop (or the recorder) with a panic")
+			}
+		})
+	}
+	if nUses > 0 && badUses == 0 {
+		c.OK("C16-R5", "event-logger-guarded", rw.Pos(), fmt.Sprintf("all %d uses of the event logger follow a LogEvents test", nUses))
+	}
+	c.MinInstances("C16-R5", 1)
 	c.MinInstances("C16-R1", 8)
 	c.MinInstances("C16-R2", 1)
 	c.MinInstances("C16-R3", 4)
